@@ -11,7 +11,7 @@ DRIVER = "equalizer_sim.py"
 SHARD = 400
 RULE = ("one case = one comparison run of the real Equalizer over a script (sequence of recording ids, each with one of "
         "behaviour texts: 9 verdict-level, 9 process-level, 2 answer-level (the parent cannot load the answer / the worker answers (False, message)), 3 in the F08 probe streams, and 115 verdict shapes (what the comparator returns: a ComparatorResult or an instance of a subclass of it with any of the 5 statuses or a value that is no status, message none / text / falsy non-text / structured / number, with or without a diff; or a bare value that is no status)) in dedicated (simulated multiprocessing) or in-process "
-        "mode, recycle rate, timeout, keep-results on/off, consumed fully / closed after n / consumer raising after n / "
+        "mode, recycle rate, timeout, keep-results on/off, per-recording KEY SET of the comparison data (the data extractor yields of / a / b / nothing, each value naming the recording; the comparator fails a recording whose keyword data is not exactly its own), consumed fully / closed after n / consumer raising after n / "
         "id source raising after n; each case also plays every recording alone and the whole script in the other mode; "
         "a comparison is observed whole: label, status, message kind, diff (whose recording it names), class of the "
         "verdict object, attached replay, expected/actual, exception flags; "
@@ -83,6 +83,29 @@ def generate(rng, tier):
         cases.append(G.mk(ids, behs, dedicated=rng.random() < 0.7, rate=rng.choice([1, 2, 2, 3, 5, 0]),
                           timeout=rng.choice([1, 2, 2, 3]), keep=rng.random() < 0.5,
                           consume=G.rand_consume(rng, len(ids)), probe="verdict-shapes"))
+    # the comparison data is that recording's: the KEYS the data extractor yields vary between the recordings of a
+    # run ('o': of, 'a', 'b', none at all; every value names the recording) and the comparator's verdict depends on
+    # getting exactly its own recording's data.  Deterministic: every assignment of key sets to three ordinary
+    # recordings in which they vary, both modes, rates 1-3 (worker lifetimes); random: mixed into ordinary scripts
+    specs = ["o", "oa", "ob", "", "ab"]
+    k = 0
+    for a in specs:
+        for b in specs:
+            for c in specs:
+                if a == b == c:
+                    continue
+                k += 1
+                if tier == "quick" and k % 3 and not (a and not c):
+                    continue
+                behs = ["equal", "equal", "different"] if k % 2 else ["different", "equal", "equal"]
+                for dedicated in (True, False):
+                    cases.append(G.mk([1, 2, 3], behs, dedicated=dedicated, rate=1 + k % 3, timeout=2, keep=bool(k % 2),
+                                      data=data_of([1, 2, 3], [a, b, c]), probe="comparison-data"))
+    for _ in range(40 if tier == "quick" else 600):
+        ids, behs = G.rand_script(rng, MAIN, W_MAIN, 10)
+        cases.append(G.mk(ids, behs, dedicated=rng.random() < 0.6, rate=rng.choice([1, 2, 2, 3, 5, 0]),
+                          timeout=rng.choice([1, 2, 3]), keep=rng.random() < 0.5, consume=G.rand_consume(rng, len(ids)),
+                          data=data_of(ids, [rng.choice(specs + ["o", "o", "b", "a"]) for _ in ids]), probe="comparison-data"))
     # probe streams for the known finding F08 (untagged queues): late answers and stale tasks
     n_probe = 30 if tier == "quick" else 400
     for k in range(n_probe):
@@ -102,10 +125,18 @@ def generate(rng, tier):
     return cases
 
 
+def data_of(ids, specs):
+    """{recording: keys of its comparison data} (default 'o' left out; a repeated id keeps its first key set)"""
+    d = {}
+    for i, sp in zip(ids, specs):
+        d.setdefault(str(i), sp)
+    return dict((i, sp) for i, sp in d.items() if sp != "o")
+
+
 def to_gallina(case, obs):
     if case.get("kind") == "real":
         return None
-    if "driver_exception" in obs:
+    if "driver_exception" in obs or "watchdog" in obs:
         return "Case true %s [] Full [] FuelOut" % G.g_cfg(case)
     cmps = G.g_cmps(obs["cmps"])
     out = G.OUTCOMES.get(obs["outcome"])
@@ -124,6 +155,8 @@ def direct(case, obs):
     if case.get("kind") == "real":
         from lib import eqreal
         return eqreal.direct_c08(case, obs)
+    if "watchdog" in obs:
+        return [("run-blocks-forever", obs["watchdog"])]
     fails = []
     ids = case["ids"]
     ded = case["dedicated"]
@@ -202,6 +235,8 @@ def shrink_candidates(case):
     for k in range(len(ids)):
         rest = ids[:k] + ids[k + 1:]
         c = dict(case, ids=rest, beh={i: b for i, b in case["beh"].items() if int(i) in rest})
+        if case.get("data"):
+            c["data"] = {i: sp for i, sp in case["data"].items() if int(i) in rest}
         if c.get("consume", ["full"])[0] != "full":
             c["consume"] = [c["consume"][0], min(c["consume"][1], len(rest))]
         yield c
@@ -209,6 +244,8 @@ def shrink_candidates(case):
         yield dict(case, beh={j: x for j, x in case["beh"].items() if j != i})
     if case.get("consume", ["full"])[0] != "full":
         yield dict(case, consume=["full"])
+    for i in sorted(case.get("data") or {}):
+        yield dict(case, data={j: sp for j, sp in case["data"].items() if j != i})
 
 
 def search_harder(rng, bad_cases):
@@ -222,7 +259,7 @@ def search_harder(rng, bad_cases):
 
 MANIFEST = dict(
     design_ref='6/C08',
-    text="Coq theorems over all scripts (sequences of recording ids with a per-recording behaviour: equal, different, player / extractor / comparator raises, bare status, worker exits, hangs, answers late, slow, answer lost in transit, worker dies before taking the task, answer that the parent cannot load or that the worker sent as (False, message)), all recycle rates, timeouts and keep-results settings, about a hand-written model of run_comparison, the dispatch/wait/timeout/recycle logic and the worker loop with explicit task queue, result queue, worker table and terminate flag: one comparison per id in input order with the right label (even with late answers); without late answers, stale tasks and lost answers the whole output is the map of the single-recording verdict (failures local, EqualizerFailure for every fault kind); for every shape of comparator result (any status or a value that is none, any message, diff, subclass instance) the comparison carries the comparator's own status, diff and class when the framework can render the verdict in its log line and is a framework failure of that recording only when it cannot; the diff attached to a verdict is that recording's or none; dedicated and in-process modes agree on the whole comparison (diff and class of the verdict included); the late-answer, stale-task and lost-answer (read lock held by a killed idle worker) clauses are refuted with witnesses (known finding F08, three signatures) and the full statement is proved for the candidate repair (fresh queues per worker). Model tied to /repo on every run by running the REAL Equalizer single-threaded over fake multiprocessing/clock/kill on generated scripts and comparing every yielded comparison with the model by vm_compute; direct predicate: labels/order/count, attached replay belongs to the labelled id, verdict equals that recording played alone, failures become EqualizerFailure for that recording only, the verdict's diff and class are the comparator's for that recording, an exception leaving run_comparison is a failure, both modes agree on the whole comparison; thorough tier adds real-process scripts.",
+    text="Coq theorems over all scripts (sequences of recording ids with a per-recording behaviour: equal, different, player / extractor / comparator raises, bare status, worker exits, hangs, answers late, slow, answer lost in transit, worker dies before taking the task, answer that the parent cannot load or that the worker sent as (False, message)), all recycle rates, timeouts and keep-results settings, about a hand-written model of run_comparison, the dispatch/wait/timeout/recycle logic and the worker loop with explicit task queue, result queue, worker table and terminate flag: one comparison per id in input order with the right label (even with late answers); without late answers, stale tasks and lost answers the whole output is the map of the single-recording verdict (failures local, EqualizerFailure for every fault kind); for every shape of comparator result (any status or a value that is none, any message, diff, subclass instance) the comparison carries the comparator's own status, diff and class when the framework can render the verdict in its log line and is a framework failure of that recording only when it cannot; the diff attached to a verdict is that recording's or none; dedicated and in-process modes agree on the whole comparison (diff and class of the verdict included); the late-answer, stale-task and lost-answer (read lock held by a killed idle worker) clauses are refuted with witnesses (known finding F08, three signatures) and the full statement is proved for the candidate repair (fresh queues per worker). Model tied to /repo on every run by running the REAL Equalizer single-threaded over fake multiprocessing/clock/kill on generated scripts and comparing every yielded comparison with the model by vm_compute; direct predicate: labels/order/count, attached replay belongs to the labelled id, verdict equals that recording played alone, failures become EqualizerFailure for that recording only, the verdict's diff and class are the comparator's for that recording, the comparator is called with exactly the comparison data extracted from that recording (key sets varying between the recordings of a run), an exception leaving run_comparison is a failure, both modes agree on the whole comparison; thorough tier adds real-process scripts.",
     note='Trusted: Coq kernel + vm_compute; hand-written model; the scheduling implemented by the fake multiprocessing layer (one resolution of each race; real interleavings, pickling across the pipe and a worker killed while holding a queue lock are runtime residue, sampled by the real-process scripts); os.kill succeeds. Late answers / stale tasks / lost answers are known finding F08 (probe streams, KNOWN-FINDING lines).',
     technique='Coq proof (invariant over the parent loop, induction over scripts and over the wait loop) + model/implementation correspondence by vm_compute over a deterministic multiprocessing simulator + real-process sampling',
 )
